@@ -35,15 +35,15 @@ type wireMsg struct {
 }
 
 type dirState struct {
-	open     map[uint64]*wireMsg // call messages of this direction whose last fragment has not been emitted (key: id, request/response)
+	open map[uint64]*wireMsg // call messages of this direction whose last fragment has not been emitted (key: id, request/response)
 	// request ids emitted in this direction that have not yet seen a terminal in the other direction
 	inflight map[uint32]bool
 	// response-side automaton for ids requested from the OTHER direction:
 	// 0 = requested, 1 = response started, 2 = terminal seen
-	resp     map[uint32]int
-	terminal map[uint32]string
+	resp       map[uint32]int
+	terminal   map[uint32]string
 	terminalEv map[uint32]int64 // event at which the terminal frame was written
-	tainted  map[uint32]bool
+	tainted    map[uint32]bool
 }
 
 func newDirState() *dirState {
